@@ -527,7 +527,8 @@ class PipeOps(FullOps):
         if isinstance(vals.get("materialize_grads"), Const) and vals["materialize_grads"].v is True:
             unused = False  # torch fills the missing gradients with zeros itself
         in_dt = "dt:=key"  # each gradient has the dtype of the input it belongs to
-        elem = opaque(frozenset(["autograd"]) | (self.atoms_of(lst) if isinstance(lst, ListV) else frozenset()), note="optional" if unused else "", dtype=in_dt)
+        # torch may return the very same tensor object for several inputs (e.g. both operands of an addition): results may alias each other
+        elem = opaque(frozenset(["autograd"]) | (self.atoms_of(lst) if isinstance(lst, ListV) else frozenset()), note="optional" if unused else "", dtype=in_dt, alias=True)
         if isinstance(lst, ListV):
             if lst.items is not None:
                 return ListV(items=tuple(elem for _ in lst.items), kind="tuple", order=lst.order)
